@@ -295,7 +295,10 @@ pub struct Bump<const MIN_ALIGN: usize = 1> {
     allocation_limit: Cell<Option<usize>>,
 }
 
-#[repr(C)]
+// NB: aligned to `CHUNK_ALIGN` (the largest supported `MIN_ALIGN`) so that the
+// address of the static empty chunk, which is the bump finger of an arena that
+// has not allocated a chunk yet, satisfies every minimum alignment.
+#[repr(C, align(16))]
 #[derive(Debug)]
 struct ChunkFooter {
     // Pointer to the start of this chunk allocation. This footer is always at
